@@ -20,6 +20,7 @@ import (
 	"strconv"
 	"strings"
 	"sync"
+	"sync/atomic"
 	"testing"
 	"time"
 
@@ -331,6 +332,48 @@ func Violation(check string, f *Failure, c any) string {
 	Flush()
 	return p
 }
+
+// Watchdog for CPU-bound cases that run on the test goroutine (pure in-memory
+// operation sequences that take microseconds): WatchBegin/WatchEnd bracket a
+// case with two atomic increments; a background goroutine samples the counter
+// and, when one and the same case has been running for more than a minute,
+// records it as a violation (signature "hang") and ends the process - the
+// goroutine that spins cannot be stopped. Single-goroutine use only.
+var (
+	watchSeq   atomic.Uint64
+	watchCheck string
+	watchCase  any
+	watchOnce  sync.Once
+)
+
+func WatchBegin(check string, c any) {
+	watchOnce.Do(func() {
+		go func() {
+			var last uint64
+			same := 0
+			for {
+				time.Sleep(2 * time.Second)
+				s := watchSeq.Load()
+				if s%2 == 1 && s == last {
+					same++
+				} else {
+					same = 0
+				}
+				last = s
+				if same >= 30 {
+					f := Failf("hang", "the case has been running for more than 60 s although every operation in it is a handful of slice operations: an operation does not terminate")
+					p := Violation(watchCheck, f, watchCase)
+					fmt.Printf("violation: hang (replay %s)\n", p)
+					os.Exit(1)
+				}
+			}
+		}()
+	})
+	watchCheck, watchCase = check, c
+	watchSeq.Add(1)
+}
+
+func WatchEnd() { watchSeq.Add(1) }
 
 // Journal records the case about to be run, so that the driver can replay it
 // if the process dies (a panic on one of the stack's own goroutines).
